@@ -173,6 +173,7 @@ class Translator:
                     self.readers.add(k)
                     changed = True
         self.inlinable = writers | self.readers
+        self.deep = set()           # translate_deep: read-only stages that are inlined as well
 
     # ------------------------------------------------------------ recognisers
     def is_environ(self, n):
@@ -1305,7 +1306,7 @@ class Translator:
                 kl += self.stored(t, ctx)
             return w + self.kills(n, ctx, sorted(set(kl)))
         inl = self.call_stmt(value, n, ctx) if self.inlinable_call(value, ctx) is not None \
-            and self.inlinable_call(value, ctx).name in self.writers else None
+            and self.inlinable_call(value, ctx).name in (self.writers | self.deep) else None
         unpack = any(not isinstance(t, ast.Name) and self.attr_key(t, ctx) is None for t in targets)
         if inl is not None:
             out = inl
@@ -1381,7 +1382,7 @@ class Translator:
             root.rets.append(OPAQUE)
             return self.simple(n, ctx, [v]) + [['kill', ctx.ret_loc, self.newid('value', n, ctx)], ['ret']]
         fnw = self.inlinable_call(v, ctx)
-        if fnw is not None and fnw.name in self.writers:
+        if fnw is not None and fnw.name in (self.writers | self.deep):
             inl = self.call_stmt(v, n, ctx)
             if inl is not None:
                 root.rets.append(OPAQUE)
@@ -1999,6 +2000,31 @@ def called_names(fn):
     return out
 
 
+def translate_deep(path, func, limit=6):
+    """extension round: like translate(), but EVERY same-module function that mentions os.environ (also the big read-only
+    stages: readspec, spec_path, number_of_fibers, ...) is inlined as a `scope` wherever the entry point or an inlined callee
+    calls it in a statement of its own (`x = f(..)` / `f(..)`), recursively (the translator's call stack is the visited set;
+    a recursive call is an ordinary fault point).  A callee whose body leaves the translatable fragment is taken out again
+    and the translation repeated (at most `limit` times): it stays a named assumption (census).  Returns
+    (translator, ir, names inlined on top of translate(), names given up)."""
+    gave_up = []
+    for _ in range(limit):
+        tr = Translator(path)
+        if func not in tr.funcs:
+            return translate(path, func) + ([], gave_up)
+        base = set(tr.inlinable)
+        deep = {k for k, f in tr.funcs.items() if k != func and k not in base and k not in gave_up
+                and tr.mentions_environ(f) and not tr.is_cm_generator(f)}
+        tr.inlinable = base | deep
+        tr.deep = deep
+        ir = tr.function(func)
+        bad = sorted({u['func'] for u in tr.unsupported if u['func'] in deep})
+        if not bad:
+            return tr, ir, sorted(deep & {q.split('.')[0] for q in tr.inlined}), gave_up
+        gave_up += bad
+    return tr, ir, sorted(deep & {q.split('.')[0] for q in tr.inlined}), gave_up
+
+
 def translate(path, func):
     """IR of one module-level function (callees / context managers of the same module that touch os.environ inlined)"""
     tr = Translator(path)
@@ -2038,3 +2064,107 @@ def emit(progs):
         lines.append('')
     lines.append('end PydlVerif.Gen.C20')
     return '\n'.join(lines) + '\n', where
+
+
+# ---------------------------------------------------------------- transitive census of in-package callees (extension round)
+def _resolve_import(pkg_root, relfile, node, alias):
+    """file (relative to the package root) and name a `from <mod> import <name>` of relfile refers to, or None when it is not
+    inside the package"""
+    import pathlib
+    parts = list(pathlib.PurePosixPath(relfile).parts[:-1])         # package path of the importing module
+    if pathlib.PurePosixPath(relfile).name == '__init__.py':
+        pass
+    if node.level:
+        base = parts[:len(parts) - (node.level - 1)] if node.level > 1 else parts
+        if node.level - 1 > len(parts):
+            return None
+    else:
+        mod = (node.module or '').split('.')
+        if mod[0] != pathlib.Path(pkg_root).name:
+            return None
+        base, node_mod = [], mod[1:]
+        for cand in ('/'.join(base + node_mod) + '.py', '/'.join(base + node_mod + ['__init__.py'])):
+            if (pathlib.Path(pkg_root) / cand).is_file():
+                return cand, alias.name
+        return None
+    mod = (node.module or '').split('.') if node.module else []
+    for cand in ('/'.join(base + mod) + '.py', '/'.join(base + mod + ['__init__.py'])):
+        if cand != '.py' and (pathlib.Path(pkg_root) / cand).is_file():
+            return cand, alias.name
+    # `from . import name` where name is a sub-module: not a function
+    return None
+
+
+def transitive_callees(pkg_root, relfile, func, inlined=(), depth=8):
+    """every function defined inside the package that is reachable from `func` of `relfile` through calls by plain name
+    (same module, `from .. import name`, re-exports through an __init__ one level), followed recursively with a visited set
+    and a depth limit.  Returns (rows, unresolved, cut): rows = [{'file', 'func', 'depth', 'via', 'effect', 'reads'}] with
+    effect in 'translated' (inlined into the IR as a scope) | 'writes' (writes os.environ and is NOT in the IR) |
+    'reads' (only looks variables up: in the IR this is the fault point of the call statement) | 'neutral';
+    cut = functions at the depth limit whose callees were not followed."""
+    import pathlib
+    pkg_root = pathlib.Path(pkg_root)
+    cache = {}
+
+    def module(rel):
+        if rel not in cache:
+            try:
+                tr = Translator(pkg_root / rel)
+            except (SyntaxError, OSError):
+                tr = None
+            imports = {}
+            if tr is not None:
+                for n in ast.walk(tr.tree):
+                    if isinstance(n, ast.ImportFrom):
+                        for a in n.names:
+                            r = _resolve_import(pkg_root, rel, n, a)
+                            if r is not None:
+                                imports[a.asname or a.name] = r
+            cache[rel] = (tr, imports)
+        return cache[rel]
+
+    def lookup(rel, name, hops=0):
+        tr, imports = module(rel)
+        if tr is None:
+            return None
+        if name in tr.funcs:
+            return rel, tr.funcs[name], tr
+        if name in tr.classes:
+            return rel, tr.classes[name], tr
+        if name in imports and hops < 3:
+            return lookup(imports[name][0], imports[name][1], hops + 1)
+        return None
+
+    rows, cut, seen = [], [], set()
+    todo = [(relfile, func, 0, None)]
+    while todo:
+        rel, name, d, via = todo.pop(0)
+        hit = lookup(rel, name)
+        if hit is None:
+            continue
+        rel, node, tr = hit
+        if (rel, node.name) in seen:
+            continue
+        seen.add((rel, node.name))
+        if d > 0:
+            if rel == relfile and node.name in {q.split('.')[0] for q in inlined}:
+                effect = 'translated'
+            elif tr.writes_env(node):
+                effect = 'writes'
+            elif tr.mentions_environ(node):
+                effect = 'reads'
+            else:
+                effect = 'neutral'
+            reads = sorted({n.slice.value for n in ast.walk(node) if isinstance(n, ast.Subscript) and tr.is_environ(n.value)
+                            and isinstance(n.slice, ast.Constant) and isinstance(n.slice.value, str)} |
+                           {n.args[0].value for n in ast.walk(node) if isinstance(n, ast.Call) and n.args
+                            and isinstance(n.args[0], ast.Constant) and isinstance(n.args[0].value, str)
+                            and ((isinstance(n.func, ast.Attribute) and tr.is_environ(n.func.value)) or tr.is_os_call(n, ('getenv',)))})
+            rows.append({'file': rel, 'func': node.name, 'depth': d, 'via': via, 'effect': effect, 'reads': reads})
+        if d >= depth:
+            cut.append('%s:%s' % (rel, node.name))
+            continue
+        for n in ast.walk(node):
+            if isinstance(n, ast.Call) and isinstance(n.func, ast.Name):
+                todo.append((rel, n.func.id, d + 1, node.name))
+    return rows, cut
